@@ -68,7 +68,9 @@ def main():
                 continue
             b = sh(f"cd {wt} && GOFLAGS=-mod=mod GOPROXY=off go build ./... 2>&1 | head -5")
             t0 = time.time()
-            c = sh(f"VERIF_REPO={wt} VERIF_SELFTEST=1 /verif/bin/govc check -prop {prop} -noreplay -noevidence")
+            # must-fail patches: no second attempt for undecided obligations (it only guards against false alarms)
+            nr = "VERIF_NO_RETRY=1 " if kind == "mustfail" else ""
+            c = sh(f"{nr}VERIF_REPO={wt} VERIF_SELFTEST=1 /verif/bin/govc check -prop {prop} -noreplay -noevidence")
             dt = time.time() - t0
             viol = "VIOLATION" in c.stdout
             ok = (viol and c.returncode == 1) if kind == "mustfail" else (not viol and c.returncode == 0)
